@@ -799,6 +799,8 @@ class Interp:
         hook = self.externals.get("getattr")
         if hook is not None:
             return hook(self, [value, name], {})
+        if isinstance(value, type(compile("0", "<x>", "eval"))) and name.startswith("co_"):
+            return getattr(value, name)  # a code object made by compile() of a concrete text
         if value is None or isinstance(value, (bool, int, float, bytes)):
             if not hasattr(value, name):
                 self.raise_("builtins.AttributeError", "%r object has no attribute %r" % (type(value).__name__, name))
@@ -1845,7 +1847,7 @@ _DEFAULT_EXTERNALS = {}
 _BUILTIN_FUNCTIONS = {
     "len", "isinstance", "max", "min", "enumerate", "range", "zip", "dict", "list", "tuple", "set", "sorted", "str",
     "repr", "any", "all", "ord", "chr", "int", "next", "type", "bool", "sum", "iter", "property", "eval", "hasattr",
-    "getattr", "setattr", "abs", "round", "divmod", "frozenset", "reversed", "map", "filter",
+    "getattr", "setattr", "abs", "round", "divmod", "frozenset", "reversed", "map", "filter", "compile",
 }
 
 
@@ -2165,6 +2167,17 @@ def _iter(interp, args, kwargs):
     if isinstance(source, (GenVal, AbsIter, _Enumerate, _Islice, _Zip, _Iter)):
         return source
     return _Iter(source)
+
+
+@_ext("builtins.compile")
+def _compile(interp, args, kwargs):
+    """compile(text, name, mode) of concrete texts is the real one; a SyntaxError is raised in the analysed code."""
+    if len(args) < 3 or not all(isinstance(argument, str) for argument in args[:3]) or kwargs:
+        raise Undecided("compile%r" % (tuple(args),))
+    try:
+        return compile(args[0], args[1], args[2])
+    except (SyntaxError, ValueError) as error:
+        interp.raise_("builtins." + type(error).__name__, str(error))
 
 
 @_ext("builtins.ord")
